@@ -24,7 +24,10 @@ func Parse(s string) (Application, error) {
 			continue
 		}
 
-		remainingLine := line[firstWhitespace+1:]
+		remainingLine := ""
+		if firstWhitespace != -1 {
+			remainingLine = line[firstWhitespace+1:]
+		}
 		comment := strings.Index(remainingLine, "#")
 		if comment != -1 {
 			remainingLine = strings.TrimSpace(remainingLine[:comment])
